@@ -17,7 +17,7 @@ NEEDS_DTYPES = False
 RULE = (
     "exhaustive matrix in fresh interpreters: DLTYPE_DISABLE in {unset, 0, 1, true, false, yes, lower-case variable name=1} x "
     "DLTYPE_DEBUG_MODE in {unset, 0, 1} x logging level in {default, DEBUG}; inside each interpreter: the three decorators x enabled in "
-    "{default, True, False}: `decorator(obj) is obj`, and the verdict vector of a fixed 29-call corpus (single, optional and tuple hints) (accepting and rejecting calls, all "
+    "{default, True, False}: `decorator(obj) is obj`, and the verdict vector of a fixed 33-call corpus (single, optional and tuple hints, a named literal followed by its bare name) (accepting and rejecting calls, all "
     "error kinds) through each decorated object, and the decoration of six objects whose hints the enabled decorators refuse (general Union, non-tensor base, `self` provider on a plain function, no dltype hint). Expectation: identity iff the effective `enabled` is false (Lean decision table "
     "Properties/C13.lean), verdict vectors equal to the baseline configuration's. non-trivial = every (configuration, decorator, enabled) triple"
 )
@@ -33,22 +33,28 @@ from dataclasses import dataclass
 import numpy as np, dltype
 A = dltype.FloatTensor["a b"]; B = dltype.FloatTensor["b c=a+b"]; I = dltype.IntTensor["*g 2"]
 P = dltype.FloatTensor["p q"]; Q = dltype.IntTensor["q 2"]
+N3 = dltype.FloatTensor["n=3 m"]; NV = dltype.FloatTensor["n"]   # a named literal, then the bare name
 Z = lambda *s, dt=np.float32: np.zeros(s, dtype=dt)
 TD = (Z(4,5), 7, Z(5,2,dt=np.int64))
 TT = tuple[Annotated[np.ndarray, P], int, Annotated[np.ndarray, Q]]
 def mk():
-    def f(x: Annotated[np.ndarray, A], y: Annotated[np.ndarray, B] | None = None, z: Annotated[np.ndarray, I] | None = None, t: TT = TD): return 1
+    def f(x: Annotated[np.ndarray, A], y: Annotated[np.ndarray, B] | None = None, z: Annotated[np.ndarray, I] | None = None, t: TT = TD,
+          w: Annotated[np.ndarray, N3] | None = None, v: Annotated[np.ndarray, NV] | None = None): return 1
     class NT(NamedTuple):
         x: Annotated[np.ndarray, A]
         y: Annotated[np.ndarray, B] | None = None
         z: Annotated[np.ndarray, I] | None = None
         t: TT = TD
+        w: Annotated[np.ndarray, N3] | None = None
+        v: Annotated[np.ndarray, NV] | None = None
     @dataclass
     class DC:
         x: Annotated[np.ndarray, A]
         y: Annotated[np.ndarray, B] | None = None
         z: Annotated[np.ndarray, I] | None = None
         t: TT = TD
+        w: Annotated[np.ndarray, N3] | None = None
+        v: Annotated[np.ndarray, NV] | None = None
     return f, NT, DC
 CORPUS = [
  (Z(2,3),), (Z(2,3), Z(3,5)), (Z(2,3), Z(3,4)), (Z(2,3), Z(4,5)), (Z(2,),), (Z(2,3,4),), (Z(2,3,dt=np.int32),), (5,), (None,),
@@ -57,6 +63,7 @@ CORPUS = [
  (Z(2,3), Z(3,5,dt=np.float64)), (Z(2,3), Z(3,5,dt=np.int32)), (Z(2,3), Z(3,)), (Z(2,3), Z(3,5,1)), (Z(5,7), Z(7,12)),
  (Z(2,3), None, None, (Z(1,2), 0, Z(2,2,dt=np.int8))), (Z(2,3), None, None, (Z(1,2), 0, Z(3,2,dt=np.int8))), (Z(2,3), None, None, (Z(1,2,1), 0, Z(2,2,dt=np.int8))),
  (Z(2,3), None, None, (Z(1,2), 0, Z(2,2))), (Z(2,3), None, None, (Z(1,2), 0)),
+ (Z(2,3), None, None, TD, Z(3,4), Z(3)), (Z(2,3), None, None, TD, Z(3,4), Z(5)), (Z(2,3), None, None, TD, Z(4,4), Z(4)), (Z(2,3), None, None, TD, None, Z(7)),
 ]
 def verdicts(obj):
     out = []
